@@ -67,6 +67,8 @@ def gen_shape(rng, nmin=2, nmax=9, mix=None, pri="small", seq_rate=0.2, flags=Tr
             elif spec_shape(fns, nodes[j]) is None and j not in flagged and kinds and rng.random() < 0.12:
                 # indexing an opaque result (half of the symbolic terms are falsy, like an empty Counter that is indexed)
                 keys = [rng.choice([0, "k", 3])] + ([rng.choice([1, "z"])] if rng.random() < 0.3 else [])
+                while len(keys) >= 2 and len(keys) < 6 and rng.random() < 0.4:
+                    keys.append(rng.choice([0, "d", 2]))  # (key paths of 3 .. 6 steps: every step counts)
             a = ["n", j, keys]
             r = rng.random()
             if flags and kinds and r < 0.12 and nd["active"] is None:
